@@ -27,6 +27,7 @@ type c09Spec struct {
 	FailMW    bool     `json:"first_write_of_the_master_key_on_leaving_fails"`
 	ByDelete  bool     `json:"maintenance_key_deleted_by_hand"` // instead of mysync maint off
 	EnterRace string   `json:"enter_race"`                      // none switch_pending master_dead
+	Casc      bool     `json:"cascade_replica"`                 // a cascade replica streams from the last HA host; under two_masters it is the host the operator turns into the second master
 }
 
 var c09Events = []string{"restart_daemon_with_marker", "restart_daemon_without_marker", "restart_all_daemons", "zk_cut_one", "zk_outage", "crash_replica", "crash_master", "file_switch", "stop_replication", "restart_during_zk_outage"}
@@ -66,6 +67,7 @@ func c09Gen(seed int64, idx int) c09Spec {
 			sp.N = 3
 		}
 	}
+	sp.Casc = sp.Mode == "full" && idx%4 == 1
 	return sp
 }
 
@@ -264,7 +266,11 @@ func (m *c09Monitor) judgeLeave(w *world.World, client string, daemon bool) {
 func c09Run(u *Unit) {
 	sp := c09Gen(u.Seed, u.Idx)
 	hosts := append([]string(nil), haNames[:sp.N]...)
-	opts := Opts{HA: hosts, Seed: u.Seed, Workload: true, PreConverged: true,
+	var casc map[string]string
+	if sp.Casc {
+		casc = map[string]string{"cas-db9": hosts[len(hosts)-1]}
+	}
+	opts := Opts{HA: hosts, Cascade: casc, Seed: u.Seed, Workload: true, PreConverged: true,
 		Cfg: func(h string, c *config.Config) {
 			c.DisableSemiSyncReplicationOnMaintenance = sp.DisableSS
 			c.FailoverDelay = 5 * time.Second
@@ -453,7 +459,12 @@ func c09Run(u *Unit) {
 				s.W.LogLocked(world.Event{Kind: "world", Who: "operator", Host: nm, Class: "manual", Arg: "move master to " + nm, Mut: true})
 				s.W.Unlock()
 			case "two_masters":
-				s.W.Manual(hosts[1], "operator: second master", func(x *world.Server) {
+				second := hosts[1]
+				if sp.Casc {
+					second = "cas-db9"
+					sc.Cover("second-master-is-the-cascade-replica")
+				}
+				s.W.Manual(second, "operator: second master", func(x *world.Server) {
 					x.Source, x.IORun, x.SQLRun, x.ReadOnly, x.SuperRO = "", false, false, false, false
 				})
 			case "no_master":
